@@ -40,6 +40,11 @@ def make_item(seed, k, variant=None):
     if variant is not None and (k // 1000) % 2 == 0:
         kind = "continuous"
     spec = universe.make_spec(rng, kind=kind, minmax="max")
+    # a third of the pairs use an objective whose values are numpy float64 / float32 scalars, Python ints or 0-d arrays
+    # (negation is exact for all of them)
+    r2 = random.Random(f"c12ret/{seed}/{k}")
+    if r2.random() < 0.33:
+        spec["ret"] = r2.choice(["np64", "np32", "int", "np0d"])
     # a third of the pairs run both directions on ONE instance (max f, then min -f): equivalent for a library whose
     # runs do not depend on instance history, and reaches direction state cached on the instance
     # some max tasks get their direction assigned after construction as the plain string "max" (pydantic does not validate
